@@ -68,7 +68,7 @@ def linspace_rules(run, F):
                                                'Some((self.start+(self.step*%s)))' % idx,
                                                'Some(((self.step*i)+self.start))', 'Some(((i*self.step)+self.start))') and \
             none[0][0] == frozenset({'(self.len <= self.index)'}) and \
-            some[0][0] == frozenset({'!(self.len <= self.index)'})
+            some[0][0] == frozenset({'(self.index < self.len)'})
         # `i` must be the pre-increment index (next) / post-decrement len (next_back)
         effs = list(some[0][2]) if some else []
         if q.endswith('::next'):
